@@ -31,7 +31,7 @@ static void plain(void)
     uint8_t *exp = malloc(70000);
     for (int il = 0; il <= maxin + 6; il++) {   /* the six long lengths are part of every tier */
         size_t inlen = il <= maxin ? (size_t)il : longs[il - maxin - 1];
-        const uint8_t *mp = inlen ? msg : 0;
+        const uint8_t *mp = HX_OPT(msg, inlen);
         uint8_t *o = hx_buf(32), e[32];
         ref_hash(A, msg, inlen, e);
         if (A) ascon_hasha(o, mp, inlen); else ascon_hash(o, mp, inlen);
@@ -101,7 +101,7 @@ static void fixed(void)
             uint8_t e[96]; ref_xof_fixed(A, d, msg, inlen, e, 96);
             for (int ol = 0; ol <= 80; ol += (ol < 18 || tier) ? 1 : 7) {
                 uint8_t *out = hx_buf(ol); xst s;
-                x_init_fixed(&s, d); x_absorb(&s, inlen ? msg : 0, inlen); x_squeeze(&s, out, ol); x_free(&s);
+                x_init_fixed(&s, d); x_absorb(&s, HX_OPT(msg, inlen), inlen); x_squeeze(&s, out, ol); x_free(&s);
                 cmp(nm("xof:fixed:xof"), out, e, ol, "declared=%zu inlen=%zu outlen=%zu", d, inlen, ol, 0);
                 hx_stat("nontrivial", 1);
                 hx_free(out);
@@ -135,7 +135,7 @@ static void cxof(void)
                     uint8_t e[48]; ref_cxof(A, (const uint8_t *)nb, rnl, custom, cl, dcl[di], msg, inlen, e, 48);
                     for (int ol = 0; ol <= 40; ol += (ol < 2) ? 1 : 13) {
                         uint8_t *out = hx_buf(ol); xst s;
-                        x_init_custom(&s, np, cl ? custom : 0, cl, dcl[di]); x_absorb(&s, inlen ? msg : 0, inlen); x_squeeze(&s, out, ol); x_free(&s);
+                        x_init_custom(&s, np, HX_OPT(custom, cl), cl, dcl[di]); x_absorb(&s, HX_OPT(msg, inlen), inlen); x_squeeze(&s, out, ol); x_free(&s);
                         cmp(nm("xof:custom:xof"), out, e, ol, "namelen=%zu customlen=%zu declared=%zu inlen/outlen=%zu", rnl, cl, dcl[di], inlen * 1000 + ol);
                         hx_stat("nontrivial", 1);
                         hx_free(out);
